@@ -1,6 +1,8 @@
 import AvroModel.Theorems.C06
 import AvroModel.Theorems.C06real
+import AvroModel.Theorems.C06bytes
 /-
 C06 — all parts together: layout and header theorems (`C06.lean`) and "any partition into blocks
-reads the same" with the real deserializer model (`C06real.lean`).
+reads the same" with the real deserializer model (`C06real.lean`), and the header theorems tied to
+the BYTES of the metadata map, any legal layout (`C06bytes.lean`, closes the `metaDe` hypothesis).
 -/
